@@ -561,7 +561,9 @@ pub fn explore_schedules<R>(
             }
         };
         let _ = cost_of_prefix;
-        if Instant::now() >= deadline {
+        // the first schedules of every shard are executed whatever the clock says (a slow machine must not turn a body
+        // into a machinery error)
+        if Instant::now() >= deadline && stats.schedules >= 3 {
             stats.capped = true;
             break;
         }
